@@ -1816,7 +1816,10 @@ package graphql
 //@   loop 3 over fieldNames
 //@   loop 3 invariant fresh(fields) && sortedflag(fieldNames)
 //@   at call astFromValue#4: assert arg1 == fieldMap[fieldName].Type
-//@   loop 3 ensures calls("astFromValue") == atloop(3, calls("astFromValue")) + 1 && !isnil(lastresult("astFromValue")) ==> len(fields) == atloop(3, len(fields)) + 1 && fields[len(fields)-1].Value == lastresult("astFromValue") && fields[len(fields)-1].Name.Value == fieldName
+//@   loop 3 ensures calls("astFromValue") == atloop(3, calls("astFromValue")) + 1 && !isnil(lastresult("astFromValue")) ==> len(fields) == atloop(3, len(fields)) + 1 && fields[len(fields)-1].Value == lastresult("astFromValue")
+// ... under the field's own name (stated at the constructor calls: the name node is a local object handed to the constructors)
+//@   at call NewName: assert arg0.Value == fieldName
+//@   at call NewObjectField: assert arg0.Name == lastresult("NewName") && arg0.Value == lastresult("astFromValue")
 //@   loop 3 ensures calls("astFromValue") == atloop(3, calls("astFromValue")) ==> len(fields) == atloop(3, len(fields))
 //@   ensures !isNullish_0(value) && typeis(value, "bool") && (typeis(ttype, "*graphql.Scalar")) ==> typeis(result, "*ast.BooleanValue") && as(result, "*ast.BooleanValue").Value == boolval(value)
 //@   ensures !isNullish_0(value) && typeis(value, "string") && typeis(ttype, "*graphql.Scalar") ==> typeis(result, "*ast.StringValue")
